@@ -379,3 +379,18 @@ Definition rpdac_inputb (S : list str) : bool :=
   forallb (fun s => forallb (fun b => negb (b =? 0)) s) S &&
   forallb (fun s => negb (match s with [] => true | _ => false end)) S &&
   sorted_lt_b S && (lenN S <? 2 ^ 31).
+
+(* ---------------------------------------------------------------------------------------- *)
+(* the prefix comparison as it is in the current tree: `if (prefixLen == 0) return 0;` precedes the
+   compare-while-expanding loop (commit ad3c59e: every string begins with the empty prefix) *)
+Definition prefix_compare_dac_api (d : rpdac) (id : N) (p : str) : option Z :=
+  match p with [] => Some 0%Z | _ => prefix_compare_dac d id p end.
+
+Definition rpdac_locate_prefix_api (d : rpdac) (p : str) : option (N * N) :=
+  locate_prefix_gen (fun c => prefix_compare_dac_api d c p) (d_elements d).
+
+Definition rpdac_extract_prefix_api (d : rpdac) (p : str) : option (list str) :=
+  match rpdac_locate_prefix_api d p with
+  | Some (l, r) => it_drain d (N.to_nat (r + 1 - l)) (u64 (l + (2 ^ 64 - 1))) r
+  | None => None
+  end.
